@@ -163,6 +163,94 @@ def e2(chk, tier):
     return n
 
 
+def comma_locale(d):
+    """builds a minimal locale whose only notable feature is decimal_point "," (what de_DE, fr_FR, ... have; only C/POSIX are installed here);
+    returns the environment additions or None if localedef cannot do it"""
+    import string
+    u = lambda cs: ';'.join('<U%04X>' % ord(c) for c in cs)
+    with open(os.path.join(d, 'charmap'), 'w') as f:
+        f.write('<code_set_name> ASCII7\n<comment_char> %\n<escape_char> /\n<mb_cur_min> 1\n<mb_cur_max> 1\nCHARMAP\n' +
+                ''.join('<U%04X> /x%02x\n' % (i, i) for i in range(128)) + 'END CHARMAP\n')
+    with open(os.path.join(d, 'vv_VV.src'), 'w') as f:
+        f.write('comment_char %\nescape_char /\nLC_CTYPE\nupper ' + u(string.ascii_uppercase) + '\nlower ' + u(string.ascii_lowercase) + '\ndigit ' + u(string.digits) +
+                '\nspace ' + u(' \t\n\v\f\r') + '\nblank ' + u(' \t') + '\nxdigit ' + u(string.digits + 'abcdefABCDEF') +
+                '\ntoupper ' + ';'.join('(<U%04X>,<U%04X>)' % (ord(c), ord(c.upper())) for c in string.ascii_lowercase) +
+                '\ntolower ' + ';'.join('(<U%04X>,<U%04X>)' % (ord(c), ord(c.lower())) for c in string.ascii_uppercase) +
+                '\nEND LC_CTYPE\nLC_NUMERIC\ndecimal_point "<U002C>"\nthousands_sep ""\ngrouping -1\nEND LC_NUMERIC\n')
+    r = run(['localedef', '-c', '--no-archive', '-f', os.path.join(d, 'charmap'), '-i', os.path.join(d, 'vv_VV.src'), os.path.join(d, 'vv_VV')])
+    if not os.path.isdir(os.path.join(d, 'vv_VV')):
+        return None
+    return {'LOCPATH': d, 'LC_ALL': 'vv_VV', 'LANG': 'vv_VV'}
+
+
+def e4(chk, tier):
+    """the emitted text must not depend on the environment or on how the translator was built: the same module of constants is translated
+    by (a) the check's own build, (b) the same binary under a locale with a decimal comma, (c) the translator built the PROJECT's way
+    (cmake on w2c2/CMakeLists.txt, default build type and flags); all outputs must be byte-identical"""
+    from batch import translate
+    w2c2 = build_w2c2('plain')
+    consts = [('f', b) for b in f32_special()] + [('F', b) for b in f64_special()] + [('i', b) for b in a32()] + [('I', b) for b in a64()]
+    consts += [('f', (se << 23) | s) for se in (0, 1, 2, 126, 127, 128, 254, 256, 257, 383, 510) for s in sig_patterns(23, 8)]        # incl. f32 subnormals of both signs
+    consts += [('F', (se << 52) | s) for se in (0, 1, 1022, 1023, 1024, 2046, 2048, 2049, 3071, 4094) for s in sig_patterns(52, 6)]
+    consts = sorted(set(consts))
+    m = Module()
+    for k, (t, b) in enumerate(consts):
+        m.globals.append((TCH[t], k % 2, const(t, b)))
+        m.add_func('', t, (), const(t, b), export='f%d' % k)
+    wasm = m.encode()
+
+    def outputs(binary, env=None):
+        wd = scratch('c07e4')
+        wp = os.path.join(wd, 'm.wasm')
+        open(wp, 'wb').write(wasm)
+        e = dict(os.environ)
+        for k in ('LC_ALL', 'LANG', 'LC_NUMERIC', 'LOCPATH'):
+            e.pop(k, None)
+        e.update(env or {})
+        r = run([binary, wp, os.path.join(wd, 'm.c')], env=e, timeout=300)
+        if r.returncode != 0:
+            return ('failed', r.stderr.decode(errors='replace')[-300:])
+        return (open(os.path.join(wd, 'm.h')).read(), open(os.path.join(wd, 'm.c')).read())
+    base = outputs(w2c2)
+    if base[0] == 'failed':
+        chk.violation('E4|translate', {'kind': 'config', 'stderr': base[1]}, 'E4 base translation failed: ' + base[1])
+        return 0
+    ran = {'own build, C locale': len(consts)}
+
+    def first_diff(a, b):
+        la, lb = (a[0] + a[1]).split('\n'), (b[0] + b[1]).split('\n')
+        for x, y in zip(la, lb):
+            if x != y:
+                return 'expected %r, got %r' % (x[:120], y[:120])
+        return 'different number of lines'
+    locdir = scratch('c07loc')
+    lenv = comma_locale(locdir)
+    if lenv:
+        o = outputs(w2c2, lenv)
+        ran['own build, locale with decimal comma'] = len(consts)
+        if o != base:
+            chk.violation('E4|locale|decimal-comma', {'kind': 'config', 'env': lenv, 'diff': first_diff(base, o) if o[0] != 'failed' else o[1], 'wasm_hex': wasm.hex()[:200000]},
+                          'translating under a locale whose decimal point is a comma (LC_ALL=vv_VV) changes the emitted C: ' + (first_diff(base, o) if o[0] != 'failed' else o[1]))
+    else:
+        chk.cov['E4_locale_part'] = 'not run: localedef could not build a test locale'
+    # the project's own build
+    bd = scratch('c07cmake')
+    r = run(['cmake', '-G', 'Ninja', '-S', os.path.join(REPO, 'w2c2'), '-B', bd], timeout=600)
+    r2 = run(['cmake', '--build', bd, '--target', 'w2c2'], timeout=1200) if r.returncode == 0 else r
+    exe = os.path.join(bd, 'w2c2')
+    if r2.returncode != 0 or not os.path.exists(exe):
+        chk.violation('E4|cmake-build-fails', {'kind': 'config', 'stderr': (r.stderr + r2.stderr).decode(errors='replace')[-1500:]}, 'the project\'s own cmake build of the translator fails')
+    else:
+        o = outputs(exe)
+        ran['project cmake build (default type and flags), C locale'] = len(consts)
+        if o != base:
+            chk.violation('E4|build|cmake-default-differs', {'kind': 'config', 'diff': first_diff(base, o) if o[0] != 'failed' else o[1], 'wasm_hex': wasm.hex()[:200000]},
+                          'the translator built with the project\'s CMakeLists (default build type) emits different C than the -O1 build of the same sources: ' +
+                          (first_diff(base, o) if o[0] != 'failed' else o[1]))
+    chk.cov['E4_environment_and_build_independence'] = ran
+    return sum(ran.values())
+
+
 def main(tier):
     if tier == 'replay':
         import json
@@ -182,12 +270,15 @@ def main(tier):
     build_ref()
     tot = e1(chk, tier)
     n2 = e2(chk, tier)
+    n4 = e4(chk, tier)
+    chk.add(evaluations=n4)
     chk.cov['distinct_nontrivial'] = tot['nonint'] + n2
     chk.cov['rule'] = ('E1: the real immediate reader + the real literal writer are run natively on every bit pattern of the stated sets '
                        '(thorough: all 2^32 f32 and all 2^32 i32; f64: 4096 sign/exponent x ~300 structured significands; i64 structured) and the '
                        'emitted C literal is evaluated by an own evaluator and compared with the input bits; E2: ~30k constants are put through the '
                        'whole pipeline (function body, global initialiser, data/element segment offset), compiled by gcc and clang and read back, '
-                       'which also validates the evaluator against the compilers. distinct_nontrivial = constants whose literal is not a plain '
+                       'which also validates the evaluator against the compilers; E4: a module of ~1 500 constants translated by the own build, by the same binary under a '
+                       'decimal-comma locale and by the project\'s own cmake build must give byte-identical C. distinct_nontrivial = constants whose literal is not a plain '
                        'non-negative integer (E1) + constants read back through a compiler (E2)')
     chk.sample({'const': 'f64.const 0x7ff8000000000000 -> literal text evaluated'})
     chk.sample({'const': 'f32.const 0x7fa00000 in a function body, read back through i32.reinterpret_f32'})
